@@ -800,3 +800,29 @@ package model
 //@ wire PreferenceFunctions
 //@   property C01 C20
 //@   json Functions=functions
+
+// ---- small helpers on the request path
+//@ spec biasName(b Bias) string
+//@ ifacemethod Bias.Identifier
+//@   ensures result == biasName(self)
+//@ func AsBiasesMap
+//@   property C08 C20 C07
+//@   ensures [by_name] fresh(result) && forall k int :: 0 <= k && k < len(*h) ==> biasName((*h)[k]) in *result
+//@   loop 1 invariant [so_far] fresh(result) && result != nil && forall k int :: 0 <= k && k < iter ==> biasName((*h)[k]) in result
+//@ func (*AlternativeWithCriteria).WithCriteriaValues
+//@   property C17 C09 C01 C03 C04 C07 C14 C15 C16 C18 C19 C20
+//@   nopanic
+//@   ensures [same_id_new_values] result != nil && fresh(result) && result.Id == a.Id && result.Criteria == *criteriaValues
+//@ func RemoveAlternativeAt
+//@   property C09 C01 C03 C04 C14 C16
+//@   assigns alternatives
+//@   ensures [one_shorter] 0 <= index && index < len(alternatives) ==> len(result) == len(alternatives) - 1
+//@ func (*DecisionMaker).AlternativesToConsider
+//@   property C01 C09 C20 C07 C08 C03 C04 C05 C06 C11 C12 C13 C14 C15 C16 C17 C18 C19
+//@   panics_iff [unknown] exists i int :: 0 <= i && i < len(dm.ChoseToMake) && !(exists k int :: 0 <= k && k < len(dm.KnownAlternatives) && dm.KnownAlternatives[k].Id == dm.ChoseToMake[i])
+//@   ensures [the_chosen_in_request_order] fresh(result) && fresh(*result) && len(*result) == len(dm.ChoseToMake)
+//@             && forall i int :: 0 <= i && i < len(dm.ChoseToMake) ==> (*result)[i].Id == dm.ChoseToMake[i] && (exists k int :: 0 <= k && k < len(dm.KnownAlternatives) && (*result)[i] == dm.KnownAlternatives[k])
+//@ func (*DecisionMaker).Alternative
+//@   property C01 C20 C07 C08 C09
+//@   panics_iff [unknown] !(exists k int :: 0 <= k && k < len(dm.KnownAlternatives) && dm.KnownAlternatives[k].Id == id)
+//@   ensures [first_match] exists k int :: 0 <= k && k < len(dm.KnownAlternatives) && result == dm.KnownAlternatives[k] && result.Id == id
